@@ -49,6 +49,9 @@ imb_quic_chacha20_poly1305(IMB_MGR *state, const void *key, const IMB_CIPHER_DIR
                 imb_set_errno(NULL, IMB_ERR_NULL_MBMGR);
                 return;
         }
+        /* reset error status */
+        imb_set_errno(state, 0);
+
         if (key == NULL) {
                 imb_set_errno(state, IMB_ERR_NULL_KEY);
                 return;
